@@ -12,7 +12,23 @@ STREAMS = ["solve", "hist", "file-valid", "file-mutant", "basis-mutant", "missin
 VOLATILE = {"logs", "logn", "lognull", "fd1", "fd2"}
 
 
+def hugeterm_case(k):
+    """seed-independent: one term of a written line (coefficient text plus name) longer than the writers' 128 KiB line buffer, and
+    two controls just below.  Names up to 131071 characters and rationals of any size are accepted by the API."""
+    big = "7" * 70000 + "/3" + "1" * 69999
+    specs = [("name-lp", "7" + "b" * 131070, "1", ["LP"]), ("name-mps", "a" + "b" * 131059, "1", ["MPS"]), ("coef-lp", "x", big, ["LP"]),
+             ("coef-mps", "x", big, ["MPS"]), ("control-name", "a" + "b" * 99999, "1", ["LP", "MPS"]),
+             ("control-coef", "x", "7" * 20000 + "/3" + "1" * 19999, ["LP", "MPS"])]
+    tag, nm, cf, fmts = specs[k % len(specs)]
+    L = ["create p0 prob min", "new_col p0 1 0 5 %s" % nm, "new_col p0 2 0 5 y", "new_row p0 1 G r1", "change_coef p0 0 0 %s" % cf, "change_coef p0 0 1 1"]
+    for f in fmts:
+        L += ["write_prob p0 @W@/o.%s %s" % (f.lower(), f), "read_prob p1 @W@/o.%s %s" % (f.lower(), f)]
+    return run.Case("C17-hugeterm-%s" % tag, L, dict(stream="hugeterm", tag=tag))
+
+
 def corpus_case(tier, seed, stream, k):
+    if stream == "hugeterm":
+        return hugeterm_case(k)
     if stream == "lu-api":
         c, m = c13.gen_api_case(tier, seed + 2000, k)
         return c
@@ -62,7 +78,7 @@ def chunk_asan(payload):
         # second passes of the history corpus with another fill pattern for fresh heap blocks: a field that is read before it is
         # written then holds a large positive / small / zero value instead of ASan's default 0xbe.. (negative as an int)
         xenv = {"ASAN_EXTRA": "max_malloc_fill_size=1048576:malloc_fill_byte=%d" % fill} if fill is not None else None
-        res = run.run_cases(os.path.join(bindir["asan"], "qsdrive"), cases, wd, batch=1 if stream == "probe" else 10, timeout=600, env_extra=xenv)
+        res = run.run_cases(os.path.join(bindir["asan"], "qsdrive"), cases, wd, batch=1 if stream in ("probe", "hugeterm") else 10, timeout=600, env_extra=xenv)
         for c in cases:
             r = res[c.id]
             part["evaluations"] += 1
@@ -222,10 +238,10 @@ def run_check(prop, tier, seed):
     q = tier == "quick"
     payloads = []
     plan_a = [("solve", 200), ("hist", 80), ("file-valid", 200), ("file-mutant", 600), ("basis-mutant", 300), ("missing", 100), ("basis", 150), ("copy", 40), ("verdict", 100),
-              ("probe", 300), ("lu-api", 60), ("enum", 12), ("oddparam", 60)]
+              ("probe", 300), ("lu-api", 60), ("enum", 12), ("oddparam", 60), ("hugeterm", 6)]
     scale = 1 if q else 15
     for stream, n in plan_a:
-        n *= scale
+        n *= scale if stream != "hugeterm" else 1
         step = 10 if stream in ("hist", "copy", "solve", "verdict", "lu-api", "enum") else 30
         for s in range(0, n, step):
             payloads.append(("chunk_asan", dict(tier=tier, seed=seed, stream=stream, start=s, count=min(step, n - s), bindir=b)))
